@@ -436,6 +436,36 @@ func (g *gen) aliasScenario() []*Node {
 		}
 	}
 	out = append(out, &Node{K: KArr, Kids: []*Node{V("va"), V("t1"), V("t2")}})
+	if g.r.Intn(3) == 0 {
+		// equality over operands that contain one container several times: every pair of
+		// positions is compared on its own
+		cp := func(n *Node, bump int) *Node {
+			c := &Node{K: KArr}
+			for i, k := range n.Kids {
+				v := k.I
+				if i == len(n.Kids)-1 {
+					v += int64(bump)
+				}
+				c.Kids = append(c.Kids, I(v))
+			}
+			if len(n.Kids) == 0 && bump != 0 {
+				c.Kids = append(c.Kids, I(int64(bump)))
+			}
+			return c
+		}
+		base := lit(1 + g.r.Intn(3))
+		out = append(out, asg("t1", base))
+		left := &Node{K: KArr, Kids: []*Node{V("t1"), V("t1")}}
+		right := &Node{K: KArr, Kids: []*Node{cp(base, 0), cp(base, g.r.Intn(2))}}
+		if g.r.Intn(2) == 0 {
+			left, right = right, left
+		}
+		if g.r.Intn(3) == 0 {
+			left = &Node{K: KDict, Kids: []*Node{S("a", g.r), V("t1"), S("b", g.r), V("t1")}}
+			right = &Node{K: KDict, Kids: []*Node{S("a", g.r), cp(base, 0), S("b", g.r), cp(base, g.r.Intn(2))}}
+		}
+		out = append(out, &Node{K: KArr, Kids: []*Node{{K: KBin, S: "==", Kids: []*Node{left, right}}, {K: KBin, S: "!=", Kids: []*Node{left, right}}}})
+	}
 	return out
 }
 
